@@ -87,7 +87,7 @@ E_RunBegin(c) ==
   /\ mon' = [anySig |-> FALSE, realFail |-> FALSE, firstObs |-> NoObs, finalObs |-> NoObs,
              tbDraws |-> <<>>, gens |-> 0, passes |-> 0, fromFF |-> FALSE, failSeed |-> Zero,
              iters |-> 0, saved |-> NoStream, savedFile |-> "", finalRan |-> FALSE, invs |-> 0,
-             firstKind |-> "none", firstStream |-> NoStream, failDraws |-> <<>>, early |-> FALSE, ffStreams |-> {}]
+             firstKind |-> "none", firstStream |-> NoStream, failDraws |-> <<>>, early |-> FALSE, ffStreams |-> {}, lastClass |-> "none"]
 
 (* doCheck lists the fail files it is going to try: the -rapid.failfile one,
    then everything the discovery glob finds *)
@@ -187,7 +187,8 @@ E_Ret(err) ==
         !.failSeed = IF k = "gen" /\ IsFail(err) THEN seed ELSE @,
         !.passes   = IF k = "gen" /\ err.class = "none" THEN @ + 1 ELSE @,
         !.finalObs = IF k = "final" THEN o ELSE @,
-        !.finalRan = @ \/ k = "final"]
+        !.finalRan = @ \/ k = "final",
+        !.lastClass = err.class]
   /\ CASE k = "ff1" ->
             IF IsFail(err) THEN /\ e1' = err /\ pc' = "ff2" /\ UNCHANGED <<pend, e2, buf, valid, invalid>>
             ELSE /\ pend' = ff /\ pc' = "ff" /\ UNCHANGED <<e1, e2, buf, valid, invalid>>
@@ -311,6 +312,19 @@ E_Errorf(r) ==
   /\ rep' = IF r.kind \in {"onlygen", "failed", "panic", "flaky"} THEN r ELSE rep
   /\ tbFailed' = TRUE
   /\ UNCHANGED <<pc, cfg, ffq, ff, pend, valid, invalid, seed, cur, flag, e1, e2, buf, best, orig, sErr, cache, shrinks, tbFailNow, mon>>
+
+(* The verbose protocol (-rapid.v, -rapid.log): every random test case is announced with its number and seed before it runs and
+   closed with its outcome afterwards.  Binding obligations (no listed property names these lines); the seed is the one the
+   schedule gives this test case -- what -rapid.seed reproduces it with. *)
+V_TestStart(n, sd) ==
+  If(cur.kind # "gen" \/ pc # "running" \/ cur.obs.ended # "running", "vlog_order")
+  \cup If(n # valid + invalid + 1, "vlog_index")
+  \cup If(sd # seed, "vlog_seed")
+V_TestEnd(n, res) ==
+  If(cur.kind # "done:gen", "vlog_order")
+  \cup If(res = "failed" /\ (~IsFail(e1) \/ n # valid + invalid + 1), "vlog_result")
+  \cup If(res = "ok" /\ (IsFail(e1) \/ mon.lastClass # "none" \/ n # valid + invalid), "vlog_result")
+  \cup If(res = "invalid" /\ (IsFail(e1) \/ mon.lastClass # "invalid" \/ n # valid + invalid), "vlog_result")
 
 (* the TB's draw log line during the final replay *)
 E_DrawLogged(label, val) ==
